@@ -281,8 +281,8 @@ theorem le_nextInputs {s s' : St} {o : Option (Bool × Inp)} (h : nextInputs s =
       | nil => simp only [hs] at h; cases h; exact Le.of_eq rfl (fun _ => rfl)
       | cons a rest => simp only [hs] at h; cases h; exact Le.of_eq rfl (fun h => absurd h hd)
 
-theorem settle_nr {c : Cfg} {pick : List Nat → Option Nat} (fuel : Nat) (s : St) (hr : s.retries = []) :
-    settle c pick fuel s = s := by
+theorem settle_nr {c : Cfg} {pick : List Nat → Option Nat} (fuel : Nat) (skip : List Nat) (s : St) (hr : s.retries = []) :
+    settle c pick fuel skip s = s := by
   cases fuel with
   | zero => simp [settle, hr]
   | succ f => simp [settle, hr]
@@ -295,7 +295,7 @@ theorem nr_handleDeath {c : Cfg} (hc : NoRetry c) {pick : List Nat → Option Na
     Le s (handleDeath c pick s w) := by
   obtain ⟨h1, l1, c1, d1⟩ := nr_markDead hc h hw hdead
   unfold handleDeath
-  rw [settle_nr _ _ h1.noRetries]
+  rw [settle_nr _ _ _ h1.noRetries]
   exact ⟨h1, l1, c1, d1, le_markDead_nr hc s w⟩
 
 /-- `try_enqueue`: the invariant is kept; afterwards worker `w` holds work or is closed, unless there was no input
